@@ -169,7 +169,10 @@ def gen_struct(rnd, present):
         c.update(A=A, lower=lower)
     c["k"] = rnd.randint(1, n)
     c["which"] = rnd.choice(["LM", "SM"])
-    c["alg"] = rnd.choice([None, dict(cls="Auto"), dict(cls="Eig"), dict(cls="Eigh"), dict(cls="PowerIteration")])
+    algs = [None, dict(cls="Auto"), dict(cls="Eig"), dict(cls="Eigh"), dict(cls="PowerIteration")]
+    if "eig_structural_ambiguous" not in present:     # recorded under C04; only steers this generator
+        algs += [dict(cls="Lanczos"), dict(cls="Arnoldi"), dict(cls="LOBPCG")]
+    c["alg"] = rnd.choice(algs)
     return c
 
 
@@ -426,6 +429,12 @@ def pinned_selection_ok(order_vals, lam_true, k, which):
 def run(ctx):
     fnd = findings()
     present = {f["flag"] for f in fnd if f["present"]}
+    try:
+        from cola import ops as _o
+        from cola.linalg import eig as _eig, Lanczos as _Lz
+        _eig(_o.Diagonal(np.array([1., 2.])), 1, "LM", _Lz())
+    except Exception:
+        present = present | {"eig_structural_ambiguous"}
     rnd = ctx.rng
     mism, samples = [], []
     terms, meta = [], []          # QI cases
